@@ -7,6 +7,7 @@ from __future__ import annotations
 
 from collections.abc import Callable
 from http import HTTPStatus
+from io import BytesIO
 from typing import Any
 
 import pyarrow as pa
@@ -198,7 +199,7 @@ _VGI_LOGO_HTML = """\
 class _RpcHttpError(Exception):
     """Internal exception for HTTP-layer errors with status codes."""
 
-    __slots__ = ("cause", "preamble", "schema", "status_code")
+    __slots__ = ("body", "cause", "preamble", "schema", "status_code")
 
     def __init__(
         self,
@@ -214,3 +215,6 @@ class _RpcHttpError(Exception):
         # Writes what must precede the error batch in the error stream: the
         # client-log messages emitted before the failure.
         self.preamble = preamble
+        # The error stream, when a dispatch shell already rendered it (so the
+        # call's statistics include it); the resource layer then sends it as is.
+        self.body: BytesIO | None = None
